@@ -107,7 +107,7 @@ func runC15(r *Result, thorough bool) {
 				}
 				r.Count(fmt.Sprintf("payload %d %d", ri, k), nt || txs == nil || len(txs) == 0)
 			}
-			if joiner == nil && s == steps/4 {
+			if joiner == nil && s >= steps/4 {
 				joiner = cl.startJoin(a)
 			}
 			// (a) the pull, step by step, checking each wire event
@@ -270,6 +270,18 @@ func runC15(r *Result, thorough bool) {
 				cl.mkCore(rst, src.core.Peers().Peers)
 				rst.core.SetAcceptedRound(1 << 30)
 				if err := rst.core.FastForward(&b2, &f2); err == nil {
+					// the frame the fast-forwarded node now holds (and would serve) hashes to the same
+					// value on both sides of the JSON transport, whatever Reset did to the object
+					if fServed, err := rst.core.Hashgraph().Store.GetFrame(b2.RoundReceived()); err == nil {
+						h1, _ := fServed.Hash()
+						var fc hg.Frame
+						jsonCopy(fServed, &fc)
+						h2, _ := fc.Hash()
+						r.Inc("frames_of_reset_nodes_rehashed", 1)
+						if !bytes.Equal(h1, h2) {
+							r.Violate("impl-violation", fmt.Sprintf("the frame of round %d held by a fast-forwarded node hashes differently before and after the JSON transport (%d roots)", fServed.Round, len(fServed.Roots)), "json-frame-hash-after-reset", nil)
+						}
+					}
 					evs, err := rst.core.EventDiff(map[uint32]int{})
 					if err == nil {
 						wire, _ := rst.core.ToWire(evs)
